@@ -67,7 +67,11 @@ static int inj_at_entry, nmsg_at_entry;
 static void inj_relax(void) {
     if (!(inj_at_entry && !shim_inject_write_eagain)) return;
     mon_flush();
-    for (int g = nmsg_at_entry; g < nmsg; g++) if (MSG[g].used) MSG[g].may_vanish = 1;
+    for (int g = nmsg_at_entry; g < nmsg; g++) if (MSG[g].used) {
+        MSG[g].may_vanish = 1;
+        if (MSG[g].topic == T_PILL)      /* the pill itself may have been lost: it is then neither owed nor a barrier for later messages */
+            for (int i = 0; i < NM; i++) for (int k = 0; k < MD[i].nmb; k++) if (MD[i].mb[k].msg == g && !MD[i].mb[k].optional) { MD[i].mb[k].optional = 1; MSG[g].owed--; }
+    }
     inj_at_entry = 0;
 }
 static void discard_pending(int i) {   /* the pending messages of module i are about to be discarded by the library */
@@ -245,7 +249,7 @@ static void do_api(op_t op) {
             char sg[64]; snprintf(sg, sizeof sg, "ST.refuse|%s-in-%s", nm[k] + 6, SN[st]); REFUSED(rc, what, sg); break; }
         int gen = MD[s].reg_gen;
         if (k == 0) { MD[s].st = S_RUNNING; exp_start[s]++; mt_arm_all(s, 1); rc = m_mod_start(h); }
-        else if (k == 1) { MD[s].st = S_PAUSED; MD[s].batch_due = 0; mt_arm_all(s, 0); rc = m_mod_pause(h); mon_flush(); post_push(POST_STOPPED, s, 0); }
+        else if (k == 1) { MD[s].st = S_PAUSED; MD[s].batch_due = 0; if (flush_phase) discard_pending(s); mt_arm_all(s, 0); rc = m_mod_pause(h); mon_flush(); post_push(POST_STOPPED, s, 0); }
         else if (k == 2) { MD[s].st = S_RUNNING; mt_arm_all(s, 1); rc = m_mod_resume(h); mon_flush(); post_push(POST_STARTED, s, 0); }
         else { if (st == S_RUNNING) exp_stop_run[s]++; else exp_stop_other[s]++; mon_stop_effects(s); mt_del_all(s); rc = m_mod_stop(h); }
         if (rc && MD[s].reg_gen == gen && MD[s].present) vfail("ST.accept", "ST.accept|state-call", "%s returned %d", what, rc);
@@ -295,7 +299,7 @@ static void do_api(op_t op) {
             if (!legal) { REFUSED(rc, "subscribe", mflag(s, M_MOD_DENY_SUB) ? "PM.sub" : "ST.refuse|subscribe"); break; }
             if (tb_account(s, rc, &sn, "subscribe")) break;
             if (rc) vfail("SR.set", "SR.set|sub", "subscribe(%s) by %s returned %d (a repeated subscription is updated in place)", PAT[p], MD[s].name, rc);
-            MD[s].sub[p] = (sub_t){ 1, prio, oneshot, upver };
+            MD[s].sub[p] = (sub_t){ 1, prio, oneshot, upver }; MD[s].life |= 32;
         } else {
             rc = m_mod_ps_unsubscribe(h, PAT[p]);
             if (legal && MD[s].sub[p].present && tb_account(s, rc, &sn, "unsubscribe")) break;
@@ -313,7 +317,7 @@ static void do_api(op_t op) {
             if (!legal) { REFUSED(rc, "m_mod_become", "ST.refuse|become"); break; }
             if (tb_account(s, rc, &sn, "become")) break;
             if (rc) vfail("HD.push", "HD.push", "m_mod_become on RUNNING %s returned %d", MD[s].name, rc);
-            if (MD[s].nhs < 8) MD[s].hs[MD[s].nhs++] = op.b;
+            if (MD[s].nhs < 8) MD[s].hs[MD[s].nhs++] = op.b; MD[s].life |= 16;
         } else {
             rc = m_mod_unbecome(h);
             if (legal && MD[s].nhs && tb_account(s, rc, &sn, "unbecome")) break;
@@ -327,13 +331,13 @@ static void do_api(op_t op) {
         rc = m_mod_set_batch_size(h, BSZ[op.b]);
         if (!MD[s].present || ctx_hidden()) { REFUSED(rc, "m_mod_set_batch_size", "ST.refuse|batch"); break; }
         if (rc) vfail("BA.set", "BA.set", "m_mod_set_batch_size returned %d", rc);
-        MD[s].batch_size = BSZ[op.b]; if (BSZ[op.b]) MD[s].ever_batched = 1; if (MD[s].nmb) MD[s].ba_unsure = 1; break; }
+        MD[s].batch_size = BSZ[op.b]; if (BSZ[op.b]) { MD[s].ever_batched = 1; MD[s].life |= 1; } if (MD[s].nmb) MD[s].ba_unsure = 1; break; }
     case O_BATCH_TMO: {
         m_mod_t *h = handle(s); take_snap(&sn);
         rc = m_mod_set_batch_timeout(h, TMO[op.b]);
         if (!MD[s].present || ctx_hidden()) { REFUSED(rc, "m_mod_set_batch_timeout", "ST.refuse|batch"); break; }
         if (rc) vfail("BA.set", "BA.set|timeout", "m_mod_set_batch_timeout(%lu) returned %d", (unsigned long)TMO[op.b], rc);
-        MD[s].batch_tmo = op.b; mt_del(s, -1); MD[s].batch_fired = 0; MD[s].batch_due = 0; if (op.b) MD[s].ever_batched = 1; if (MD[s].nmb) MD[s].ba_unsure = 1;
+        MD[s].batch_tmo = op.b; mt_del(s, -1); MD[s].batch_fired = 0; MD[s].batch_due = 0; if (op.b) { MD[s].ever_batched = 1; MD[s].life |= 2; } if (MD[s].nmb) MD[s].ba_unsure = 1;
         if (op.b) mt_set(s, -1, TMO[op.b], 0, MD[s].st == S_RUNNING);
         break; }
     case O_UNSTASH: {
@@ -366,7 +370,7 @@ static void do_api(op_t op) {
             if (tb_account(s, rc, &sn, what)) break;
             if (idx >= 0) { if (rc != -EEXIST) vfail("SR.set", "SR.set|dup", "%s: key already present, returned %d instead of -EEXIST", what, rc); check_unchanged(&sn, what, "SR.set|dup-effect"); if (api_depth == 1) last_refused = 1; break; }
             if (rc) vfail("SR.set", "SR.set|new", "%s: new key, returned %d", what, rc);
-            MD[s].src[freei] = (srcrec_t){ 1, kind, key, flags, 0 };
+            MD[s].src[freei] = (srcrec_t){ 1, kind, key, flags, 0 }; MD[s].life |= 64 << (kind == K_TMR);
             if (kind == K_TMR) mt_set(s, freei, TPER[key], (flags & 2) != 0, MD[s].st == S_RUNNING);
         } else {
             rc = src_call(h, kind, key, 0, 0, NULL);
@@ -385,13 +389,14 @@ static void do_api(op_t op) {
         if (!MD[s].present || ctx_hidden()) { REFUSED(rc, "m_mod_set_tokenbucket", "ST.refuse|bucket"); break; }
         if (rc == -EAGAIN && MD[s].tb_rate > 0) { TBLOG[s].refusals++; break; }      /* reconfiguration itself consumes tokens (source registration) */
         if (rc) vfail("TB.set", "TB.set", "m_mod_set_tokenbucket(%d,%d) returned %d", TBCFG[op.b].rate, TBCFG[op.b].burst, rc);
+        if (TBCFG[op.b].rate) MD[s].life |= 4;
         MD[s].tb_rate = TBCFG[op.b].rate; MD[s].tb_burst = TBCFG[op.b].burst; memset(&TBLOG[s], 0, sizeof TBLOG[s]); TBLOG[s].set_at = shim_now_ns;
         break; }
     /* ------------------------------------------------ environment / user-held */
     case O_ARM: MD[s].armed[op.b >> 5].act = op.b & 31; MD[s].armed[op.b >> 5].arg = op.d; break;
     case O_READY: { char c = 'x'; if (__real_write(UFD[op.a].wr, &c, 1) == 1) UFD[op.a].bytes++; break; }
     case O_ADVANCE: if (adv_drains && api_depth == 1) { api_depth--; drain(); api_depth++; } shim_advance(ADV[op.a]); mt_advance(); break;
-    case O_INJECT: if (op.a == INJ_WRITE_EAGAIN) shim_inject_write_eagain = 1 + op.b; else shim_inject_epoll_errno = op.a == INJ_EPOLL_EINTR ? EINTR : EBADF; break;
+    case O_INJECT: if (op.a == INJ_CTL_DEL) shim_inject_ctl_del = 1; else if (op.a == INJ_WRITE_EAGAIN) shim_inject_write_eagain = 1 + op.b; else shim_inject_epoll_errno = op.a == INJ_EPOLL_EINTR ? EINTR : EBADF; break;
     case O_RELEASE: { int r = retained[op.a]; for (int i = op.a; i < nret - 1; i++) retained[i] = retained[i + 1]; nret--; EV[r].refs--; m_mem_unref((void *)EV[r].p); break; }
     default: vfail("INTERNAL", "INTERNAL", "unknown op %d", op.c);
     }
